@@ -15,6 +15,10 @@ virtual loop to quiescence):
   <t>:l:<d|i|w|e>:<0|1>:<fmt>:<args>                ctx.log_<level>(fmt, *args, exception=... if 1)
   <t>:s   <t>:c                                     ctx.spawn(new task) / asyncio create_task(new task)
   <t>:e                                             task t returns
+  <t>:k                                             task t is cancelled from outside (Task.cancel()) while it is suspended in a
+                                                    body or blocked in a scope exit: CancelledError unwinds all its blocks
+block kind `d` = async scope with a disposable whose __aexit__ raises (unless the exit reason is a cancellation):
+the caller catches the cleanup error and continues; the scope's ctx.spawn members are cancelled by the task group.
 strings: `_` stands for a space, no `:` `,` or blank inside; args: comma separated i<nat> / s<chars>.
 Tasks are numbered in creation order (0 = the initial task, started without any context), scopes in
 construction order.  After the last token the clock advances by 5 (final phase).
@@ -32,23 +36,6 @@ from dataclasses import dataclass, field
 
 from harness import vloop
 
-
-def _give_multiprocessing_the_real_clock() -> None:
-    """Local workaround (reported to the framework owner): vloop freezes `time.monotonic`; the stdlib's
-    `multiprocessing.connection.wait(timeout=0)` then never times out and `Pool.terminate()` hangs.  The
-    multiprocessing modules get a private `time` namespace with the real clock; nothing else is touched."""
-    import multiprocessing.connection as _c
-    import multiprocessing.pool as _p
-    import time as _t
-    import types
-
-    real = types.SimpleNamespace(monotonic=vloop.real_monotonic, sleep=vloop._REAL_SLEEP, time=_t.time)
-    for mod in (_c, _p):
-        if getattr(mod, "time", None) is _t:
-            mod.time = real
-
-
-_give_multiprocessing_the_real_clock()
 
 REC_MERGES = ["rep", "sum", "cat", "first", "boom"]
 VIEW_MERGES = ["rep", "sum", "cat", "first", "skipnew"]
@@ -72,6 +59,7 @@ class Ev:
     t: int = 0
     dt: int = 0
     is_async: bool = False
+    disp: bool = False
     cb: str = "n"
     name: str = "n"
     logger: int | None = None
@@ -116,9 +104,9 @@ def parse_tok(tok: str) -> Ev | None:
         return None
     t, op, rest = int(f[0]), f[1], f[2:]
     if op in ("o", "m"):
-        if len(rest) not in (2, 5) or rest[0] not in ("s", "a") or rest[1] not in ("n", "s", "a"):
+        if len(rest) not in (2, 5) or rest[0] not in ("s", "a", "d") or rest[1] not in ("n", "s", "a"):
             return None
-        ev = Ev("open" if op == "o" else "make", t=t, is_async=rest[0] == "a", cb=rest[1])
+        ev = Ev("open" if op == "o" else "make", t=t, is_async=rest[0] in ("a", "d"), disp=rest[0] == "d", cb=rest[1])
         if len(rest) == 5:
             ev.name = dec(rest[2])
             if rest[3] != "":
@@ -147,6 +135,8 @@ def parse_tok(tok: str) -> Ev | None:
         return Ev("spawn", t=t, member=op == "s")
     if op == "e" and not rest:
         return Ev("end", t=t)
+    if op == "k" and not rest:
+        return Ev("cancel", t=t)
     return None
 
 
@@ -176,6 +166,7 @@ class SScope:
     sid: int
     lex: int | None               # the scope that was current where it was constructed
     is_async: bool
+    disp: bool
     cb: str
     name: str
     logger: int | None
@@ -227,7 +218,7 @@ class Replay:
 
     def _construct(self, ev: Ev) -> int:
         sid = len(self.scopes)
-        self.scopes.append(SScope(sid, self.cur(ev.t), ev.is_async, ev.cb, ev.name, ev.logger, ev.trace, ev.t, self.k))
+        self.scopes.append(SScope(sid, self.cur(ev.t), ev.is_async, ev.disp, ev.cb, ev.name, ev.logger, ev.trace, ev.t, self.k))
         return sid
 
     def _enter(self, t: int, sid: int) -> None:
@@ -239,6 +230,31 @@ class Replay:
         self.scopes[sid].ev_left = self.k
         self.tasks[t].blocked = False
 
+    def _kill(self, t: int) -> None:
+        """CancelledError unwinds task t: every block is left (an async block first cancels and joins its
+        ctx.spawn members), the task ends"""
+        tk = self.tasks[t]
+        while tk.frames:
+            sid = tk.frames[-1]
+            if self.scopes[sid].is_async:
+                self._kill_members(sid)
+            self._finish_exit(t)
+        tk.alive = False
+        tk.pending = None
+        tk.blocked = False
+
+    def _kill_members(self, g: int) -> None:
+        for u, utk in enumerate(self.tasks):
+            if utk.alive and utk.member_of == g:
+                self._kill(u)
+
+    def _release_owner(self, g: int | None) -> None:
+        if g is not None and not self.live_members(g):
+            for o, otk in enumerate(self.tasks):
+                if otk.blocked and otk.frames and otk.frames[-1] == g:
+                    self._finish_exit(o)
+                    break
+
     def step(self, ev: Ev) -> bool:
         self.k += 1
         if not self.ok:
@@ -246,6 +262,13 @@ class Replay:
         if ev.kind == "tick":
             return True
         t = ev.t
+        if ev.kind == "cancel":
+            if t >= len(self.tasks) or not self.tasks[t].alive:
+                self.ok = False
+                return False
+            self._kill(t)
+            self._release_owner(self.tasks[t].member_of)
+            return True
         if not self.can_act(t):
             self.ok = False
             return False
@@ -266,7 +289,11 @@ class Replay:
                 self.ok = False
                 return False
             sid = tk.frames[-1]
-            if self.scopes[sid].is_async and self.live_members(sid):
+            if self.scopes[sid].disp:
+                self._kill_members(sid)          # the cleanup error aborts the task group
+                self.scopes[sid].exc = True
+                self._finish_exit(t)
+            elif self.scopes[sid].is_async and self.live_members(sid):
                 if ev.exc:
                     self.ok = False
                     return False
@@ -286,12 +313,7 @@ class Replay:
                 return False
             tk.alive = False
             tk.pending = None
-            g = tk.member_of
-            if g is not None and not self.live_members(g):
-                for o, otk in enumerate(self.tasks):
-                    if otk.blocked and otk.frames and otk.frames[-1] == g:
-                        self._finish_exit(o)
-                        break
+            self._release_owner(tk.member_of)
         return True
 
     def clone(self) -> "Replay":
@@ -361,7 +383,7 @@ CBS = ["s", "a", "s", "a", "n"]
 
 
 def sample_events(rng, max_scopes: int, degenerate: bool = False, extra=None, open_tok=None,
-                  max_tasks: int = 4, max_steps: int = 60, tick_w: float = 0.6) -> str | None:
+                  max_tasks: int = 4, max_steps: int = 60, tick_w: float = 0.6, faults: float = 0.0) -> str | None:
     """One random valid event sequence (drained).  At each step an enabled event is drawn with weights biased
     towards building a tree first and towards leaving parents early.  `extra(rng, replay, t)` may add
     component specific events for task t (records, log calls) as (weight, token) pairs; `open_tok(rng, t, held)`
@@ -373,7 +395,12 @@ def sample_events(rng, max_scopes: int, degenerate: bool = False, extra=None, op
     for _ in range(max_steps):
         opts: list[tuple[float, str]] = []
         live = [t for t, tk in enumerate(r.tasks) if tk.alive and not tk.blocked]
-        if not live:
+        if faults:
+            # fault knob: cancel a task that is suspended in a body or blocked in an exit; blocks with a failing cleanup
+            for t, tk in enumerate(r.tasks):
+                if tk.alive and (tk.frames or tk.blocked):
+                    opts.append((faults * (2.0 if tk.blocked else 0.6), f"{t}:k"))
+        if not live and not opts:
             break
         for t in live:
             tk = r.tasks[t]
@@ -381,12 +408,16 @@ def sample_events(rng, max_scopes: int, degenerate: bool = False, extra=None, op
                 opts.append((3.0, mk(rng, t, False)))
                 if degenerate:
                     opts.append((1.2, mk(rng, t, True)))
+                if faults:
+                    f = mk(rng, t, False).split(":")
+                    f[2] = "d"
+                    opts.append((2.0 * faults, ":".join(f)))
             if tk.pending is not None:
                 opts.append((1.5, f"{t}:n"))
             if tk.frames:
                 sid = tk.frames[-1]
                 opts.append((2.0, f"{t}:x"))
-                if not (r.scopes[sid].is_async and r.live_members(sid)):
+                if r.scopes[sid].disp or not (r.scopes[sid].is_async and r.live_members(sid)):
                     opts.append((0.5, f"{t}:X"))
             else:
                 opts.append((0.8 if nsc < max_scopes else 3.0, f"{t}:e"))
@@ -421,6 +452,22 @@ class Boom(Exception):
 
 class MergeBoom(ValueError):
     pass
+
+
+class DispBoom(Exception):
+    pass
+
+
+class FailingCleanup:
+    """a disposable (test double handed to ctx.scope) whose cleanup raises - unless the scope is being cancelled"""
+
+    async def __aenter__(self):
+        return None
+
+    async def __aexit__(self, et, ev, tb):
+        if et is not None and issubclass(et, asyncio.CancelledError):
+            return None
+        raise DispBoom("cleanup failed")
 
 
 _CLASSES = None
@@ -570,6 +617,8 @@ class Run:
             async def acb(m, sid=sid):
                 self.on_complete(sid, m)
             kw["completion"] = acb
+        if ev.disp:
+            kw["disposables"] = [FailingCleanup()]
         return sid, ctx.scope(ev.name, **kw)
 
 
@@ -591,6 +640,8 @@ class Puppet:
     async def main(self) -> None:
         try:
             await self.body(top=True)
+        except asyncio.CancelledError:
+            pass                                  # cancelled from outside or as a member of an aborted group
         except BaseException as exc:  # noqa: BLE001
             self.run.note(f"task-died:{type(exc).__name__}")
         finally:
@@ -619,6 +670,8 @@ class Puppet:
         except Boom as exc:
             if exc is not state["boom"]:
                 self.run.note("raised:other-Boom")
+        except DispBoom:
+            pass                                  # the cleanup error surfaces; the caller catches it and continues
         except asyncio.CancelledError:
             raise
         except BaseException as exc:  # noqa: BLE001
@@ -698,9 +751,6 @@ def run_case(case: str):
         return None
     vm, evs, _ = p
     run = Run(vm, evs)
-    # every case starts at the same integer instant: the shared virtual clock may have picked up fractions from
-    # `time.sleep` calls of the standard library (subprocess wait loops) in this process or its parent
-    vloop.CLOCK.now = 1000.0
     loop = vloop.new_loop()
     root = logging.getLogger()
     cap = Capture(run, "root")
@@ -723,6 +773,10 @@ def run_case(case: str):
                 loop.quiesce()
                 continue
             pup = run.puppets[ev.t] if ev.t < len(run.puppets) else None
+            if ev.kind == "cancel" and pup is not None and not pup.done:
+                pup.task.cancel()
+                loop.quiesce()
+                continue
             if pup is None or pup.waiting is None or pup.waiting.done():
                 run.desync = f"desync@{run.k}"
                 break
